@@ -1,6 +1,7 @@
 (* Facts about the regenerated pool/listen constants (gen/PoolGen.v). *)
 From Coq Require Import List Arith Lia Bool.
 From VL Require Import PoolExpr Pool PoolProofs Listen.
+From VL Require Export PoolSrc.
 From VLG Require Import PoolGen.
 
 (* the growth condition read from ThreadPool::execute means: workers <= counter and workers < max *)
@@ -23,10 +24,6 @@ Proof. vm_compute. reflexivity. Qed.
 Lemma stop_checked_per_accept : stop_checked_after_accept = true.
 Proof. vm_compute. reflexivity. Qed.
 
-(* the pool as configured by the source *)
-Definition src_step (max : nat) := pstep count_at_enqueue grow_cond_src max.
-Definition src_run (max : nat) := prun count_at_enqueue grow_cond_src max.
-Definition src_init (initial max : nat) := pinit (effective_initial initial_clamped initial max).
 
 Theorem src_pool_safe initial max es s : 1 <= initial -> 1 <= max -> ~ In EDrop es ->
   src_run max (src_init initial max) es = Some s ->
@@ -61,4 +58,3 @@ Proof.
   destruct I as (_ & _ & _ & _ & _ & Hc & _). exact Hc.
 Qed.
 
-Definition src_cfg (idle : nat) (stop : bool) : lcfg := mkcfg idle stop stop_quantum_ms stop_checked_after_accept.
